@@ -13,6 +13,20 @@ Definition is_ascii (c : N) : bool := c <? 128.
 Definition is_letter (b : N) : bool := existsb (N.eqb b) gen_codepage_letters.
 Definition qmark : N := 63.
 
+(* is_double_byte_lead (regenerated): is b the first byte of a two-byte character in the codepage of letter l? *)
+Fixpoint sassoc {A} (k : string) (l : list (string * A)) : option A :=
+  match l with [] => None | (k', x) :: r => if String.eqb k k' then Some x else sassoc k r end.
+Fixpoint nassoc {A} (k : N) (l : list (N * A)) : option A :=
+  match l with [] => None | (k', x) :: r => if k =? k' then Some x else nassoc k r end.
+Definition lead (l b : N) : bool :=
+  match nassoc l gen_codepage_tab with
+  | Some nm => match sassoc nm gen_lead_ranges with
+               | Some rs => existsb (fun r => (fst r <=? b) && (b <=? snd r)) rs
+               | None => false
+               end
+  | None => false
+  end.
+
 Section CP.
   Variable enc : N -> N -> option (list N).
   Variable dec : N -> list N -> list N.
@@ -34,7 +48,7 @@ Section CP.
     | [] => []
     | c :: t =>
         if is_ascii c then
-          c :: enc_from (if after && is_letter c then follow c else cur) (is_caret c) t
+          c :: enc_from (if after && is_letter c then follow c else cur) (negb after && is_caret c) t
         else match enc cur c with
              | Some w => w ++ enc_from cur false t
              | None =>
@@ -48,7 +62,7 @@ Section CP.
     match s with
     | [] => (cur, after)
     | c :: t =>
-        if is_ascii c then state_after (if after && is_letter c then follow c else cur) (is_caret c) t
+        if is_ascii c then state_after (if after && is_letter c then follow c else cur) (negb after && is_caret c) t
         else match enc cur c with
              | Some _ => state_after cur false t
              | None => match search gen_search_order cur c with
@@ -61,16 +75,21 @@ Section CP.
   Definition to_lossy_bytes (s : list N) : list N :=
     if forallb is_ascii s then s else enc_from gen_default_codepage false s.
 
-  (* the decoder: scan for marker pairs (caret, codepage letter); the bytes between two markers
-     are decoded in the codepage of the first; ^8 is kept in the text *)
+  (* the decoder: a left-to-right scan for marker pairs (caret, codepage letter) in which an escaped
+     caret (^^) and a double-byte character (lead byte + any second byte, possibly 0x5E) are taken as
+     pairs; the bytes between two markers are decoded in the codepage of the first; ^8 is kept in the text *)
   Fixpoint dls (cur : N) (acc : list N) (bs : list N) : list N :=
     match bs with
     | [] => dec cur (rev acc)
     | b :: t =>
         match t with
         | l :: t' =>
-            if is_caret b && is_letter l
-            then dec cur (rev acc) ++ (if l =? gen_propagate_letter then [caret; l] else []) ++ dls l [] t'
+            if is_caret b then
+              if is_letter l
+              then dec cur (rev acc) ++ (if l =? gen_propagate_letter then [caret; l] else []) ++ dls l [] t'
+              else if is_caret l then dls cur (l :: b :: acc) t'
+              else dls cur (b :: acc) t
+            else if lead cur b then dls cur (l :: b :: acc) t'
             else dls cur (b :: acc) t
         | [] => dec cur (rev (b :: acc))
         end
